@@ -69,6 +69,8 @@ DepInst(order) == Inst("min", << V(1, "continuous", <<>>), V(2, "continuous", <<
 NextDeps == \E order \in BOOLEAN, x \in {R(0), R(1), <<1,2>>} : vec' = Ev("evaluate", [inst |-> DepInst(order), st |-> << <<1, x>> >>])
 \* ---- C12 -----------------------------------------------------------------------------------------------------------
 EncInst(kind, b) == Inst("min", << V(1, "continuous", <<>>), V(4, kind, b), V(9, "binary", <<>>) >>, L(<< T(4, R(1)) >>, Zero), <<>>, <<>>, <<>>)
+\* the same variables stored out of id order (ids of new variables must still be fresh)
+EncInstUnsorted(b) == Inst("min", << V(9, "binary", <<>>), V(12, "continuous", <<>>), V(4, "integer", b) >>, L(<< T(4, R(1)) >>, Zero), <<>>, <<>>, <<>>)
 NextLogEncode ==
   \/ \E l2 \in -16..16, u2 \in -16..16 : l2 <= u2 /\ vec' = Ev("log_encode", [inst |-> EncInst("integer", B(Mk(l2, 2), Mk(u2, 2))), vid |-> 4])
   \* quarters and tenths: the fractional parts of the two ends vary independently (lower + upper slack may exceed 1)
@@ -76,6 +78,7 @@ NextLogEncode ==
   \/ \E l \in {Mk(1, 10), Mk(-19, 10), Mk(9, 10)}, n \in 0..17 : vec' = Ev("log_encode", [inst |-> EncInst("integer", B(l, RAdd(l, Mk(n * 10 + 8, 10)))), vid |-> 4])
   \/ \E w \in 1..MaxWidth, off \in {0, -1048576, 1048576} :
         vec' = Ev("log_encode", [inst |-> EncInst("integer", B(R(IF off = 1048576 THEN off - w ELSE off), R(IF off = 1048576 THEN off ELSE off + w))), vid |-> 4])
+  \/ \E w \in {1, 2, 5, 7, 8, 100} : vec' = Ev("log_encode", [inst |-> EncInstUnsorted(B(R(0), R(w))), vid |-> 4])
   \/ \E bad \in {"unknown", "continuous", "binary", "nobound", "inf_hi", "inf_lo", "inf_both", "empty"} :
         vec' = Ev("log_encode", [inst |-> CASE bad = "continuous" -> EncInst("continuous", B(R(0), R(3)))
                                             [] bad = "binary" -> EncInst("binary", B(R(0), R(1)))
